@@ -56,6 +56,8 @@ def dest_kind(host: str):
             return "localhost_case", 0
         return "name_other", 0
     ip = EXPLICIT.get((kind, v), 0)
+    if not ip and kind == "v6" and (v >> 32) == 0xFFFF:  # IPv4-mapped spelling of an explicit IPv4 listen address
+        ip = EXPLICIT.get(("v4", v & 0xFFFFFFFF), 0)
     if ip:
         return ("explicit_ip" if host in EXPLICIT_TEXT else "explicit_ip_alt"), ip
     if kind == "v4":
@@ -257,15 +259,22 @@ class Check(core.PropertyCheck):
     def model_constants(self, tier):
         cfgs = {name: tuple(socks_of(c)) for name, c in self._configs(tier).items()}
         return {"Configs": cfgs, "Dests": frozenset(core.tlaval.FrozenDict(d) for d in self._dests(tier)),
-                "Ports": frozenset(PORTS), "Guard": "text"}
+                "Ports": frozenset(PORTS), "Guard": "parsed"}
 
     def model_runs(self, ctx):
         runs = [ctx.model_check(self.MODEL, self.model_constants(ctx.tier), dump=True)]
-        # design level: the guard the statement asks for is accepted by the monitor
-        r = ctx.model_check(self.MODEL, self.model_constants(ctx.tier) | {"Guard": "denotes"}, dump=False, tag="_denotes")
-        if r.bad:
-            raise core.MachineryError(f"C23: the monitor rejects the 'denotes' design: {r.bad[:3]}")
-        ctx.notes["design_denotes_guard_accepted"] = {"states": r.states}
+        if not ctx.quick:
+            # design level: the weakest guard the statement asks for is accepted by the monitor, the textual guard of
+            # the code before commit 9a745e7b9 is rejected
+            r = ctx.model_check(self.MODEL, self.model_constants(ctx.tier) | {"Guard": "denotes"}, dump=False,
+                                tag="_denotes")
+            if r.bad:
+                raise core.MachineryError(f"C23: the monitor rejects the 'denotes' design: {r.bad[:3]}")
+            ctx.notes["design_denotes_guard_accepted"] = {"states": r.states, "transitions": r.transitions}
+            r = ctx.model_check(self.MODEL, self.model_constants(ctx.tier) | {"Guard": "text"}, dump=False, tag="_text")
+            if not any(b and b[0] == "C23.self_connect_not_refused" for b in r.bad):
+                raise core.MachineryError("C23: the textual guard (code before the fix) is not rejected by the monitor")
+            ctx.notes["design_text_guard_rejected"] = {"states": r.states, "bad_signatures": len(r.bad)}
         return runs
 
     def scenarios(self, ctx, models):
@@ -302,11 +311,13 @@ class Check(core.PropertyCheck):
                 return rng.choice(["0.0.0.0", "::", "0::", "::0", "0:0:0:0:0:0:0:0"])
             if r < 0.85:
                 fam, v = rng.choice(list(EXPLICIT))
-                return _fmt4(v) if fam == "v4" else _fmt6(v, rng.randrange(2))
+                if fam == "v4":
+                    return _fmt4(v) if rng.random() < 0.8 else "::ffff:" + _fmt4(v)
+                return _fmt6(v, rng.randrange(2))
             return rng.choice(["example.com", "localhost.example.com", "10.0.0.1", "2001:db8::6", "mitm.it",
                                _fmt4(rng.getrandbits(32))])
 
-        for _ in range(300 if ctx.quick else 6000):
+        for _ in range(250 if ctx.quick else 6000):
             config = []
             for _i in range(rng.choice((1, 1, 2, 3))):
                 addrs = [[rng.choice(listen_hosts), rng.choice(PORTS[:2])]]
